@@ -26,7 +26,8 @@ MANIFEST = {
             "the same indices, lat-lon: haversine kernel with bin_edges/geo_scale, structured meshes in C order, "
             "preprocessing delegated to remove_trend_norm_mean, axis estimator mask/axis/reshape semantics -- "
             "values symbolic, shapes and missing-value patterns enumerated. (C) native seed-driven end-to-end "
-            "probes of every invariance with the compiled kernels. Added after the seeding rounds: no_data = 0; automatic bins are the standard bins of the points actually used (after masking and down-sampling, in geo_scale units); a single direction with angles_tol up to and including pi/2 stays a directional estimate. Also: estimator names are matched case-insensitively and reach the kernels as 'm' / 'c'.",
+            "probes of every invariance with the compiled kernels. Added after the seeding rounds: no_data = 0; automatic bins are the standard bins of the points actually used (after masking and down-sampling, in geo_scale units); a single direction with angles_tol up to and including pi/2 stays a directional estimate. Also: estimator names are matched case-insensitively and reach the kernels as 'm' / 'c'."
+            " Round 7: fields given as a python list of masked arrays; a normalizer given as a class means a new default instance in every call (no fitted state leaks between calls); NaN entries are missing also when a non-NaN no_data marker is given to the axis estimator (F37 repaired).",
     "level_note": "category 'other': the wrapper layer is shape-enumerated (<= 4 points, <= 2 fields, dims 1-3, "
                   "enumerated mask / NaN / no_data / index patterns: bounded, not proved for all shapes) and the "
                   "permutation / removed-point lemmas are enumerated for n <= 4 in their combinatorial step. "
